@@ -10,6 +10,7 @@ import (
 	"github.com/tokenized/pkg/storage"
 	"github.com/tokenized/pkg/wire"
 	handlersstorage "github.com/tokenized/spynode/internal/storage"
+	"github.com/tokenized/spynode/internal/verifhook"
 	"github.com/tokenized/spynode/pkg/client"
 
 	"github.com/pkg/errors"
@@ -64,6 +65,7 @@ func (node *Node) processBlocks(ctx context.Context) error {
 			time.Sleep(200 * time.Millisecond)
 			continue
 		}
+		verifhook.At(ctx, "node.blocks.popped")
 
 		if err := node.ProcessBlock(ctx, block); err != nil {
 			c := errors.Cause(err)
@@ -226,6 +228,8 @@ func (node *Node) ProcessBlock(ctx context.Context, block wire.Block) error {
 	if err := node.blocks.Add(ctx, &header); err != nil {
 		return errors.Wrap(err, "add block")
 	}
+
+	verifhook.At(ctx, "node.block.headerAdded")
 
 	// If we are in sync we can save after every block
 	if node.state.IsReady() {
